@@ -556,6 +556,23 @@ class Authorization(Endpoint):
         # A request object passed by value (or pushed) must use an algorithm permitted for
         # the client, just like one fetched through request_uri.
         _ver_request = request.get(verified_claim_name("request"))
+        if _ver_request is not None:
+            # A request object speaks for the identified client only: it must not name another
+            # client and, when signed, must be issued by (and so verified with the keys of)
+            # that client.
+            _signed = (getattr(_ver_request, "jws_header", None) or {}).get("alg", "none") != "none"
+            if (
+                _ver_request.get("client_id", client_id) != client_id
+                or request.get("client_id", client_id) != client_id
+                or ("iss" in _ver_request and _ver_request["iss"] != client_id)
+                or (_signed and "iss" not in _ver_request)
+            ):
+                return self.authentication_error_response(
+                    request,
+                    error="invalid_request",
+                    error_description="Request object does not belong to the client",
+                )
+
         if _ver_request is not None and getattr(_ver_request, "jws_header", None):
             try:
                 self.allowed_request_algorithms(
